@@ -369,7 +369,10 @@ fn rec_nest(d: usize, base: &str, wrap: &dyn Fn(&str) -> String) -> String {
     s
 }
 
-pub const CONSTRUCTS: [&str; 18] = [
+pub const CONSTRUCTS: [&str; 21] = [
+    "wide-array-equality",
+    "wide-object-equality",
+    "long-string-comparison",
     "wide-array-wildcard",
     "wide-array-filter",
     "wide-object-descendant",
@@ -424,6 +427,15 @@ pub fn rung(construct: &str, d: usize) -> (String, Value) {
         "descendant-wildcard-on-nested-objects" => ("$..a".to_string(), nested_object(d)),
         "filter-descendant-on-nested-arrays" => ("$[?@..[0]]".to_string(), nested_array(d)),
         // size ladders: d is a width / length (x16: the rungs 8..32768 give 128..524288 elements or characters)
+        "wide-array-equality" => ("$[?@.a==@.b||@.a<=$[0].b]".to_string(), {
+            let a: Vec<Value> = (0..d * 16).map(|i| json!(i % 3)).collect();
+            json!([{"a": a.clone(), "b": a.clone()}, {"a": a, "b": [0]}])
+        }),
+        "wide-object-equality" => ("$[?@.a==@.b]".to_string(), {
+            let o: Value = Value::Object((0..d * 4).map(|i| (format!("k{}", i), json!([i]))).collect());
+            json!([{"a": o.clone(), "b": o}])
+        }),
+        "long-string-comparison" => ("$[?@.a==@.b||@.a<@.b||@.a>='a']".to_string(), json!([{"a": "a".repeat(d * 16), "b": format!("{}b", "a".repeat(d * 16))}])),
         "wide-array-wildcard" => ("$[*]".to_string(), Value::Array((0..d * 16).map(|i| json!(i)).collect())),
         "wide-array-filter" => ("$[?@>1&&@<5||@==7]".to_string(), Value::Array((0..d * 16).map(|i| json!(i % 10)).collect())),
         "wide-object-descendant" => ("$..[?@.a]".to_string(), Value::Object((0..d * 4).map(|i| (format!("k{}", i), json!({"a": i}))).collect())),
@@ -513,7 +525,12 @@ pub enum RungResult {
 }
 
 pub fn run_rung(construct: &str, d: usize, horizon: Duration) -> RungResult {
-    let exe = std::env::current_exe().expect("current exe");
+    run_rung_with(construct, d, horizon, false)
+}
+
+/// `debug_build`: run the rung with the debug build of the harness and of jsonpath-rust (JPMC_DEV_BIN)
+pub fn run_rung_with(construct: &str, d: usize, horizon: Duration, debug_build: bool) -> RungResult {
+    let exe = if debug_build { std::path::PathBuf::from(std::env::var("JPMC_DEV_BIN").expect("JPMC_DEV_BIN")) } else { std::env::current_exe().expect("current exe") };
     let mut child = Command::new(exe)
         .args(["ladder", construct, &d.to_string()])
         .stdout(Stdio::piped())
@@ -577,8 +594,25 @@ pub fn ladder(run: &Run) -> Acc {
     }
     let pool = rayon::ThreadPoolBuilder::new().num_threads(4).build().unwrap();
     let horizon = |c: &str| if c.starts_with("exp:") { Duration::from_secs(15) } else { Duration::from_secs(120) };
-    let results: Vec<((&str, usize), RungResult)> = pool.install(|| jobs.par_iter().map(|(c, d)| ((*c, *d), run_rung(c, *d, horizon(c)))).collect());
+    let mut results: Vec<((&str, usize), RungResult)> = pool.install(|| jobs.par_iter().map(|(c, d)| ((*c, *d), run_rung(c, *d, horizon(c)))).collect());
     let mut acc = Acc::new();
+    // size ladders once more with a debug build (thorough tier): what must not grow with the width is the stack
+    if std::env::var("JPMC_DEV_BIN").is_ok() {
+        let dev_jobs: Vec<(&str, usize)> = jobs.iter().filter(|(c, d)| (c.starts_with("wide-") || c.starts_with("long-")) && *d <= 4096).cloned().collect();
+        let dev: Vec<((&str, usize), RungResult)> = pool.install(|| dev_jobs.par_iter().map(|(c, d)| ((*c, *d), run_rung_with(c, *d, Duration::from_secs(300), true))).collect());
+        for ((c, d), r) in dev {
+            acc.evals += 1;
+            acc.bump("ladder_rungs_debug_build", 1);
+            acc.outcome(|| format!("{} @ {} (debug build): {:?}", c, d, r));
+            if !matches!(r, RungResult::Ok(_)) {
+                acc.viol(
+                    format!("{} of size {} x16 with a debug build of jsonpath-rust: {:?}", c, d, r),
+                    json!({"kind": "ladder", "class": format!("ladder {} (debug build)", c), "construct": c, "depth": d, "debug_build": true}),
+                );
+            }
+        }
+    }
+    results.retain(|_| true);
     for ((c, d), r) in results {
         acc.evals += 1;
         acc.nontrivial += 1;
@@ -613,7 +647,12 @@ pub fn replay_ladder(case: &Value, run: &Run) -> Acc {
     let mut acc = Acc::new();
     let c = case["construct"].as_str().unwrap_or("parens").to_string();
     let d = case["depth"].as_u64().unwrap_or(8) as usize;
-    let r = run_rung(&c, d, if c.starts_with("exp:") { Duration::from_secs(15) } else { Duration::from_secs(60) });
+    let dev = case["debug_build"].as_bool().unwrap_or(false);
+    if dev && std::env::var("JPMC_DEV_BIN").is_err() {
+        eprintln!("this case needs the debug build (use ./run replay)");
+        std::process::exit(2);
+    }
+    let r = run_rung_with(&c, d, if c.starts_with("exp:") { Duration::from_secs(15) } else if dev { Duration::from_secs(300) } else { Duration::from_secs(60) }, dev);
     println!("construct {} depth {} : {:?}", c, d, r);
     let _ = run;
     if !matches!(r, RungResult::Ok(_)) {
